@@ -60,8 +60,9 @@ type fullStart struct {
 	Prune     bool `json:"prune,omitempty"` // optional migration "prune-mode" enabled
 	HeadState bool `json:"headState"`       // optional migration "new-state" enabled
 	Inflate   bool `json:"inflate"`
-	CancelAt  int  `json:"cancelAt"` // cancel right after this store commit (0 = never)
-	CrashAt   int  `json:"crashAt"`  // the process dies right after this store commit (0 = never)
+	CancelAt  int  `json:"cancelAt"`         // cancel right after this store commit (0 = never)
+	CrashAt   int  `json:"crashAt"`          // the process dies right after this store commit (0 = never)
+	FailAt    int  `json:"failAt,omitempty"` // this commit attempt fails (0 = never)
 }
 
 type fullHistory struct {
@@ -196,7 +197,15 @@ type fullRun struct {
 	sdlRet     string
 	sdlIdx     int
 	crashInSdl bool
-	height     uint64
+	// headstate observation (same scheme)
+	hsPre, hsPost []string
+	hsRet         string
+	crashInHs     bool
+	nContracts    int
+	seed          uint64
+	failInMigrate bool // an injected write failure happened inside a migration
+	failTk        int  // model tick of a failed RUNNER write (0: none)
+	height        uint64
 }
 
 func (m *recMig) Before(st []byte) error {
@@ -230,7 +239,23 @@ func (m *recMig) Migrate(ctx context.Context, database db.KeyValueStore, n *netw
 	if m.idx == fr.sdlIdx {
 		fr.sdlPre = sdlAbstract(database, fr.height)
 	}
+	if m.idx == 2 {
+		fr.hsPre = hsAbstract(database, fr.seed, fr.nContracts)
+	}
 	st, err := m.inner.Migrate(ctx, database, n, l)
+	if m.idx == 2 {
+		fr.hsPost = hsAbstract(database, fr.seed, fr.nContracts)
+		switch {
+		case err != nil && st != nil && errors.Is(err, context.Canceled):
+			fr.hsRet = "rerun"
+		case err != nil:
+			fr.hsRet = "failed"
+		case st == nil:
+			fr.hsRet = "done"
+		default:
+			fr.hsRet = "rerun"
+		}
+	}
 	if m.idx == fr.sdlIdx {
 		fr.sdlPost = sdlAbstract(database, fr.height)
 		switch {
@@ -291,19 +316,38 @@ type fullOutcome struct {
 	sdlNext         uint64
 	sdlPre, sdlPost []string
 	sdlRet          string
+	hsPre, hsPost   []string
+	hsRet           string
+	failedWrites    int
 }
 
 // realFullStart runs NewRunner + Run with the real migrations on (a copy of) d.
-func realFullStart(d *memory.Database, height uint64, sp fullStart) fullOutcome {
+func realFullStart(d *memory.Database, spec fullSpec, sp fullStart) fullOutcome {
 	var out fullOutcome
+	height := uint64(0)
+	if !spec.Chain.NoHeight {
+		height = spec.Chain.height()
+	}
 	work := d.Copy()
 	store := newFaultStore(work)
 	if sp.Inflate {
 		store.inflate = 96 * 1024 * 1024
 	}
+	store.failAt = sp.FailAt
 	ctx, cancel := context.WithCancel(context.Background())
 	defer cancel()
-	fr := &fullRun{store: store, obs: map[int]*observed{}, cancelTk: never, crashTk: never, height: height, sdlIdx: 3}
+	fr := &fullRun{store: store, obs: map[int]*observed{}, cancelTk: never, crashTk: never, height: height, sdlIdx: 3,
+		nContracts: spec.Contracts, seed: spec.Chain.Seed}
+	store.onFail = func() {
+		fr.mu.Lock()
+		defer fr.mu.Unlock()
+		if fr.inMigrate {
+			fr.failInMigrate = true
+		} else if fr.failTk == 0 {
+			fr.modelTick++
+			fr.failTk = fr.modelTick
+		}
+	}
 	store.hook = func(n int, fs *faultStore) {
 		fr.mu.Lock()
 		defer fr.mu.Unlock()
@@ -318,6 +362,7 @@ func realFullStart(d *memory.Database, height uint64, sp fullStart) fullOutcome 
 			fr.crashTk = fr.modelTick
 			fr.image = fs.image()
 			fr.crashInSdl = fr.inMigrate && fr.sdlPre != nil && fr.sdlPost == nil
+			fr.crashInHs = fr.inMigrate && fr.hsPre != nil && fr.hsPost == nil
 		}
 	}
 	reg, regS := fullRegistry(sp.Prune, sp.HeadState, func(i int, m migration.Migration) migration.Migration {
@@ -355,6 +400,11 @@ func realFullStart(d *memory.Database, height uint64, sp fullStart) fullOutcome 
 	out.obs = fr.obs
 	out.btImgs = fr.btImages
 	out.sdlNext, out.sdlPre, out.sdlPost, out.sdlRet = fr.sdlNext, fr.sdlPre, fr.sdlPost, fr.sdlRet
+	out.hsPre, out.hsPost, out.hsRet = fr.hsPre, fr.hsPost, fr.hsRet
+	if fr.image != nil && fr.hsPre != nil && (fr.hsPost == nil || fr.crashInHs) {
+		out.hsPost, out.hsRet = hsAbstract(fr.image, fr.seed, fr.nContracts), "crashed"
+	}
+	out.failedWrites = store.failed
 	if fr.image != nil && fr.sdlPre != nil && (fr.sdlPost == nil || fr.crashInSdl) {
 		// the process died inside statedifflength.Migrate: the image is what it left
 		out.sdlPost, out.sdlRet = sdlAbstract(fr.image, height), "crashed"
@@ -365,7 +415,7 @@ func realFullStart(d *memory.Database, height uint64, sp fullStart) fullOutcome 
 	} else {
 		out.after = work
 	}
-	ms := startSpec{Reg: regS, CancelAt: fr.cancelTk, CrashAt: fr.crashTk}
+	ms := startSpec{Reg: regS, CancelAt: fr.cancelTk, CrashAt: fr.crashTk, FailAt: fr.failTk}
 	out.line = ms.modelLine(fr.obs)
 	return out
 }
@@ -452,10 +502,6 @@ func (h *harness) fullHistoryCase(hist fullHistory, family string) {
 		res.Note("full spec does not build: %v", err)
 		return
 	}
-	height := uint64(0)
-	if !hist.Spec.Chain.NoHeight {
-		height = hist.Spec.Chain.height()
-	}
 	res.Sample(10, map[string]any{"kind": "full-upgrade-history", "history": hist})
 	if a := h.bt.ask("disk none"); a != "ok" {
 		res.Mismatch(lib.Mismatch{Sig: "disk-line-rejected", Model: a})
@@ -470,7 +516,7 @@ func (h *harness) fullHistoryCase(hist fullHistory, family string) {
 			sp = starts[si]
 			if (headState && !sp.HeadState) || (prune && !sp.Prune) {
 				// an opt-out attempt: must be refused, then go on with the migration enabled
-				o := realFullStart(cur, height, sp)
+				o := realFullStart(cur, hist.Spec, sp)
 				res.Case(fmt.Sprintf("%s|%d|optout", family, si), false)
 				res.Hit("full-start:optout-attempt")
 				if o.open == "ok" {
@@ -483,7 +529,7 @@ func (h *harness) fullHistoryCase(hist fullHistory, family string) {
 			sp = fullStart{HeadState: headState, Prune: prune} // undisturbed
 		}
 		headState, prune = headState || sp.HeadState, prune || sp.Prune
-		o := realFullStart(cur, height, sp)
+		o := realFullStart(cur, hist.Spec, sp)
 		res.Case(fmt.Sprintf("%s|%d|%+v|%s|%d", family, si, sp, hist.Spec.Chain.Layout, hist.Spec.Chain.Seed), o.commits > 0)
 		if o.hang {
 			res.Violate(lib.Violation{Sig: "upgrade-hangs", What: fmt.Sprintf("start %d does not return", si), Replay: hist})
@@ -526,7 +572,7 @@ func (h *harness) fullHistoryCase(hist fullHistory, family string) {
 			if err != nil || uint64(md.CurrentVersion) != t || uint64(md.LastTargetVersion) != t {
 				res.Violate(lib.Violation{Sig: "run-ok-but-target-not-applied", What: fmt.Sprintf("metadata %+v target %b", md, t), Replay: hist})
 			}
-			tw := realFullStart(d0, height, fullStart{HeadState: headState, Prune: prune})
+			tw := realFullStart(d0, hist.Spec, fullStart{HeadState: headState, Prune: prune})
 			if good && tw.result == "ok" {
 				if same, why := sameDump(dump(cur), dump(tw.after)); !same {
 					res.Violate(lib.Violation{Sig: "upgrade-final-db-differs-from-undisturbed-upgrade", What: why, Replay: hist})
@@ -542,6 +588,7 @@ func (h *harness) fullHistoryCase(hist fullHistory, family string) {
 
 func (h *harness) compareFullStart(hist fullHistory, si int, o fullOutcome) {
 	h.compareSDL(hist, si, o)
+	h.compareHS(hist, si, o)
 	ans := h.bt.ask(o.line)
 	h.res.Compared(1)
 	disk, _, _, _ := readDisk(o.after)
@@ -620,7 +667,7 @@ func (h *harness) fullAll() {
 		Layout: strings.Repeat("o", 12) + "---" + strings.Repeat("o", 8)}, Contracts: 5}
 	d0, err := fixed.build()
 	if err == nil {
-		tw := realFullStart(d0, fixed.Chain.height(), fullStart{HeadState: true, Inflate: true})
+		tw := realFullStart(d0, fixed, fullStart{HeadState: true, Inflate: true})
 		h.res.HitN("full-fixed-commits", tw.commits)
 		step := 1
 		if h.f.Tier == "quick" {
@@ -634,7 +681,7 @@ func (h *harness) fullAll() {
 	// the same with the history pruner enabled (dense chain: every block has transactions)
 	pr := fullSpec{Chain: chainSpec{Seed: 9, Counts: repeatInt(2, 24), Layout: strings.Repeat("o", 24)}, Contracts: 3, Prunable: true}
 	if d1, err := pr.build(); err == nil {
-		tw := realFullStart(d1, pr.Chain.height(), fullStart{Prune: true, HeadState: true, Inflate: true})
+		tw := realFullStart(d1, pr, fullStart{Prune: true, HeadState: true, Inflate: true})
 		h.res.HitN("full-prune-commits", tw.commits)
 		h.prunerRestoreCrash(pr, "prune")
 		h.fullHistoryCase(fullHistory{Spec: pr, Starts: []fullStart{{Prune: true, HeadState: true}}}, "prune-undisturbed")
@@ -678,7 +725,6 @@ func (h *harness) prunerRestoreCrash(fs fullSpec, family string) {
 	if err != nil {
 		return
 	}
-	height := fs.Chain.height()
 	work := d0.Copy()
 	store := newFaultStore(work)
 	var img *memory.Database
@@ -707,7 +753,7 @@ func (h *harness) prunerRestoreCrash(fs fullSpec, family string) {
 		return
 	}
 	h.res.Hit("pruner-restore-image")
-	o := realFullStart(img, height, fullStart{Prune: true})
+	o := realFullStart(img, fs, fullStart{Prune: true})
 	rp := prunerReplay{fs, "upgrade with prune-mode; image after the first commit that leaves the live history buckets (14,15,16) empty and the scratch namespace populated; restart the upgrade on that image"}
 	if o.hang {
 		h.res.Violate(lib.Violation{Sig: "upgrade-hangs", What: "restart after death in the pruner's restore phase does not return", Replay: rp})
@@ -726,7 +772,7 @@ func (h *harness) prunerRestoreCrash(fs fullSpec, family string) {
 				"every later start fails: " + msg, Replay: rp})
 		return
 	}
-	tw := realFullStart(d0, height, fullStart{Prune: true})
+	tw := realFullStart(d0, fs, fullStart{Prune: true})
 	if same, why := sameDump(dump(o.after), dump(tw.after)); !same {
 		h.res.Violate(lib.Violation{Sig: "upgrade-final-db-differs-from-undisturbed-upgrade", What: "after death in the pruner's restore phase: " + why, Replay: rp})
 	}
@@ -754,6 +800,18 @@ func (h *harness) compareSDL(hist fullHistory, si int, o fullOutcome) {
 	if o.sdlPre == nil || o.sdlPost == nil || hist.Spec.Chain.NoHeight {
 		return
 	}
+	h.sdlTransition(sdlObs{o.sdlNext, o.sdlPre, o.sdlPost, o.sdlRet, o.failedWrites > 0}, map[string]any{"history": hist, "start": si})
+}
+
+type sdlObs struct {
+	sdlNext         uint64
+	sdlPre, sdlPost []string
+	sdlRet          string
+	wfail           bool
+}
+
+func (h *harness) sdlTransition(o sdlObs, input map[string]any) {
+	hist := input
 	height := len(o.sdlPre) - 1
 	if a := h.bt.ask(fmt.Sprintf("sdl.set %d %s", height, strings.Join(o.sdlPre, " "))); a != "ok" {
 		h.res.Mismatch(lib.Mismatch{Sig: "sdl.set-rejected", Model: a})
@@ -789,6 +847,20 @@ func (h *harness) compareSDL(hist fullHistory, si int, o fullOutcome) {
 		var n int
 		fmt.Sscanf(o.sdlRet, "rerun:%d", &n)
 		tok = fmt.Sprintf("P%d", n-start)
+	case o.sdlRet == "failed" && o.wfail:
+		bits := []byte{}
+		for b := start; b <= height; b++ {
+			if o.sdlPre[b] != o.sdlPost[b] {
+				for len(bits) < b-start {
+					bits = append(bits, '0')
+				}
+				bits = append(bits, '1')
+			}
+		}
+		if len(bits) == 0 {
+			bits = []byte{'-'}
+		}
+		tok = "W*:" + string(bits)
 	}
 	ans := h.bt.ask(fmt.Sprintf("sdl.migrate %d %s", o.sdlNext, tok))
 	h.res.Compared(1)
@@ -796,7 +868,7 @@ func (h *harness) compareSDL(hist fullHistory, si int, o fullOutcome) {
 	want := o.sdlRet + " " + strings.Join(o.sdlPost, " ")
 	if ans != want {
 		h.res.Mismatch(lib.Mismatch{Sig: "statedifflength-transition-not-allowed-by-model", Input: map[string]any{
-			"history": hist, "start": si, "checkpoint": o.sdlNext, "pre": o.sdlPre, "step": tok}, Model: ans, Impl: want})
+			"case": hist, "checkpoint": o.sdlNext, "pre": o.sdlPre, "step": tok}, Model: ans, Impl: want})
 	}
 	// oracle on the real code: a returned checkpoint never runs ahead of the committed blocks
 	if strings.HasPrefix(o.sdlRet, "rerun:") {
@@ -812,4 +884,117 @@ func (h *harness) compareSDL(hist fullHistory, si int, o fullOutcome) {
 			}
 		}
 	}
+}
+
+// ---- headstate: every observed Migrate call must be a transition of the Lean model -------------
+
+func sortedContractAddrs(seed uint64, n int) []*felt.Felt {
+	out := make([]*felt.Felt, n)
+	for i := range out {
+		out[i] = contractAddr(seed, i)
+	}
+	sort.Slice(out, func(i, j int) bool { return out[i].Cmp(out[j]) < 0 })
+	return out
+}
+
+// hsAbstract renders the contracts (in key order of the ContractClassHash bucket) as
+// `<class hash|x>:<nonce|x>:<deploy height|x>:<x | nonce,class,height of the Contract record>`.
+func hsAbstract(d db.KeyValueReader, seed uint64, n int) []string {
+	addrs := sortedContractAddrs(seed, n)
+	out := make([]string, n)
+	u := func(f felt.Felt) string { return fmt.Sprint(f.Uint64()) }
+	for i, a := range addrs {
+		c, nn, hh, ct := "x", "x", "x", "x"
+		if v, err := core.GetContractClassHash(d, a); err == nil {
+			c = u(v)
+		}
+		if v, err := core.GetContractNonce(d, a); err == nil {
+			nn = u(v)
+		}
+		if v, err := core.GetContractDeploymentHeight(d, a); err == nil {
+			hh = fmt.Sprint(v)
+		}
+		if r, err := state.GetContract(d, a); err == nil {
+			ct = fmt.Sprintf("%s,%s,%d", u(r.Nonce), u(r.ClassHash), r.DeployedHeight)
+		}
+		out[i] = c + ":" + nn + ":" + hh + ":" + ct
+	}
+	return out
+}
+
+func (h *harness) compareHS(hist fullHistory, si int, o fullOutcome) {
+	h.hsTransition(hsObs{o.hsPre, o.hsPost, o.hsRet}, map[string]any{"history": hist, "start": si})
+}
+
+type hsObs struct {
+	hsPre, hsPost []string
+	hsRet         string
+}
+
+func (h *harness) hsTransition(o hsObs, hist map[string]any) {
+	if o.hsPre == nil || o.hsPost == nil || len(o.hsPre) == 0 {
+		return
+	}
+	if a := h.bt.ask("hs.set " + strings.Join(o.hsPre, " ")); a != "ok" {
+		h.res.Mismatch(lib.Mismatch{Sig: "hs.set-rejected", Model: a})
+		return
+	}
+	// rank of the pending addresses and which of them changed
+	bits := []byte{}
+	rank, hi := 0, 0
+	wiped := 0
+	for i := range o.hsPre {
+		f0, f1 := strings.Split(o.hsPre[i], ":"), strings.Split(o.hsPost[i], ":")
+		if f0[0] != "x" {
+			b := byte('0')
+			if f0[3] != f1[3] {
+				b = '1'
+				hi = rank + 1
+			}
+			bits = append(bits, b)
+			rank++
+		}
+		for k := 0; k < 3; k++ {
+			if f0[k] != "x" && f1[k] == "x" && k+1 > wiped {
+				wiped = k + 1
+			}
+		}
+	}
+	bs := string(bits)
+	if bs == "" {
+		bs = "-"
+	}
+	var toks []string
+	switch o.hsRet {
+	case "done":
+		toks = []string{"P"}
+	case "rerun":
+		toks = []string{fmt.Sprintf("P%d", hi)}
+	case "failed":
+		if wiped > 0 || hi == rank {
+			toks = []string{fmt.Sprintf("Y%d", wiped), "W*:" + bs}
+		} else {
+			toks = []string{"W*:" + bs}
+		}
+	case "crashed":
+		toks = []string{"C*:" + bs}
+		if wiped > 0 || hi == rank {
+			toks = []string{fmt.Sprintf("X%d", wiped), "C*:" + bs, "P"}
+		}
+	}
+	want := strings.Join(o.hsPost, " ")
+	h.res.Compared(1)
+	h.res.Hit("hs-transition:" + o.hsRet)
+	var last string
+	for _, tok := range toks {
+		h.bt.ask("hs.set " + strings.Join(o.hsPre, " "))
+		ans := h.bt.ask("hs.migrate " + tok)
+		last = ans
+		f := strings.SplitN(ans, " ", 2)
+		if len(f) == 2 && f[1] == want && (f[0] == o.hsRet || (o.hsRet == "crashed" && tok == "P")) {
+			return
+		}
+	}
+	h.res.Mismatch(lib.Mismatch{Sig: "headstate-transition-not-allowed-by-model", Input: map[string]any{
+		"case": hist, "pre": o.hsPre, "steps": toks}, Model: last, Impl: o.hsRet + " " + want})
 }
